@@ -43,3 +43,100 @@ MANIFEST = {
             "nothing may escape the scheduler run, and sources must be released.",
     "note": "Depth-1 pipelines; fault position bounded by N+2 calls.",
 }
+
+
+# ------------------------------------------------------------------ factories raising at subscribe time, nested subscriptions
+import reactivex
+from reactivex import operators as ops
+from reactivex.subject import Subject
+from reactivex.scheduler import CurrentThreadScheduler
+
+from engine.api import I
+from engine.lib import Injected, Recorder, make_scheduler
+
+F_OPS = {
+    "flat_map": lambda f: ops.flat_map(f),
+    "concat_map": lambda f: ops.concat_map(f),
+    "switch_map": lambda f: ops.switch_map(f),
+    "merge_all": lambda f: reactivex.compose(ops.map(f), ops.merge_all()),
+    "switch_latest": lambda f: reactivex.compose(ops.map(f), ops.switch_latest()),
+    "flat_map_catch": lambda f: reactivex.compose(ops.flat_map(f), ops.catch(reactivex.of(99))),
+}
+
+
+def _finst(tier):
+    return [{"op": o, "src": s, "kind": k} for o in F_OPS for s in ("hot", "sync", "subject_in_action") for k in ("defer", "create", "mapper")]
+
+
+@harness(instances=_finst, k=I(1, 4), timeout=(60, 300), stock=False)
+def h_factory(a, inst):
+    """the k-th inner observable fails while being subscribed (factory of defer / subscribe function of create / the
+    mapper itself); the outer subscriber must get on_error(fault) and nothing may escape into the emitter"""
+    fault = Injected("factory")
+    n = [0]
+    fired = [False]
+
+    def boom():
+        fired[0] = True
+        raise fault
+
+    def mapper(x):
+        n[0] += 1
+        me = n[0]
+        if inst["kind"] == "mapper":
+            if me == a.k:
+                boom()
+            return reactivex.of(70 + me)
+        if inst["kind"] == "defer":
+            return reactivex.defer(lambda s: boom() if me == a.k else reactivex.of(70 + me))
+
+        def sub(obs, sch):
+            if me == a.k:
+                boom()
+            obs.on_next(70 + me)
+            obs.on_completed()
+        return reactivex.create(sub)
+
+    op = F_OPS[inst["op"]](mapper)
+    log = []
+    escaped = None
+    if inst["src"] == "hot":
+        sch = make_scheduler()
+        from engine.lib import on_next as N, on_completed as C
+        src = sch.create_hot_observable(N(210, 1), N(220, 2), N(230, 3), C(240))
+        try:
+            res = sch.start(lambda: src.pipe(op))
+            from engine.lib import rec_tuples
+            log = [(k, p) for _, k, p in rec_tuples(res.messages)]
+        except Injected as e:
+            escaped = e
+    elif inst["src"] == "sync":
+        try:
+            reactivex.from_iterable([1, 2, 3]).pipe(op).subscribe(
+                lambda v: log.append(("N", v)), lambda e: log.append(("E", e)), lambda: log.append(("C", None)))
+        except Injected as e:
+            escaped = e
+    else:
+        subj = Subject()
+        subj.pipe(op).subscribe(lambda v: log.append(("N", v)), lambda e: log.append(("E", e)), lambda: log.append(("C", None)))
+
+        def action(s, st):
+            for v in (1, 2, 3):
+                subj.on_next(v)
+            subj.on_completed()
+        try:
+            CurrentThreadScheduler.singleton().schedule(action)
+        except Injected as e:
+            escaped = e
+    if not fired[0]:
+        return True
+    cover("fired")
+    if escaped is not None:
+        return False
+    kinds = [k for k, _ in log]
+    if not grammar_ok(kinds):
+        return False
+    if inst["op"] == "flat_map_catch":
+        return kinds[-1:] == ["C"] and ("N", 99) in log and "E" not in kinds
+    errs = [p for k, p in log if k == "E"]
+    return len(errs) == 1 and errs[0] is fault
